@@ -159,13 +159,39 @@ AuthEvents(s) ==
     GStoreNew(s) \cup GStoreUpd(s) \cup GCompletes(s) \cup GCancels(s) \cup GSigned(s)
     \cup {[E0 EXCEPT !.kind = "Blocks", !.n = 1]}
 
+\* generator extras: did, staking and fault events in the same behaviours as the storage life cycle
+GenDid(s) ==
+    {[E0 EXCEPT !.kind = "Binding", !.creator = c, !.acc = a, !.did = "s1", !.amount = t, !.sigmode = m] :
+        c \in {"a04", "a05"}, a \in {"a04", "a05", "a06"}, t \in {0, -901}, m \in {"ok", "replay"}}
+    \cup {[E0 EXCEPT !.kind = "PayAddrSid", !.creator = c, !.acc = a, !.did = "s1"] : c \in {"a04", "a05"}, a \in {"a04", "a05", "a06"}}
+    \cup (LET bound == SelectSeq(DidAccs, LAMBDA a : BoundDid(s, a) = "s1") IN
+          IF Len(bound) < 2 THEN {}
+          ELSE {[E0 EXCEPT !.kind = "DidUpdate", !.creator = bound[1], !.did = "s1", !.tx = <<bound[Len(bound)]>>,
+                           !.datas = SubSeq(bound, 1, Len(bound) - 1)],
+                [E0 EXCEPT !.kind = "DidUpdate", !.creator = bound[Len(bound)], !.did = "s1", !.tx = <<bound[1]>>, !.datas = Tail(bound)]})
+GenStaking(s) ==
+    {[E0 EXCEPT !.kind = "Delegate", !.creator = d, !.val = "v1", !.amount = m] : d \in {"a02", "a07"}, m \in {10, 250000, 200000000}}
+    \cup {[E0 EXCEPT !.kind = "Undelegate", !.creator = x.d, !.val = x.v, !.amount = m] :
+            x \in {y \in Rng(s.delegs) : y.d # "vo1"}, m \in {10, 250000}}
+    \cup {[E0 EXCEPT !.kind = "Reset", !.creator = "a02", !.status = 15, !.val = "v1"],
+          [E0 EXCEPT !.kind = "AddVstorage", !.creator = "a02", !.size = 1000000]}
+GenFaults(s) ==
+    UNION {LET o == OrderOf(s, sh.order) IN
+           {[E0 EXCEPT !.kind = "ReportFaults", !.creator = r, !.provider = sh.sp,
+                       !.faults = <<[data |-> o.data, order |-> o.id, shard |-> sid, commit |-> c, provider |-> sh.sp]>>] :
+               r \in {"a03", "a01"}, sid \in {sh.id, sh.id + 1}, c \in {"c99", o.commit}}
+           \cup {[E0 EXCEPT !.kind = "RecoverFaults", !.creator = r, !.provider = sh.sp,
+                            !.faults = <<[data |-> o.data, order |-> o.id, shard |-> sh.id, commit |-> o.commit, provider |-> sh.sp]>>] :
+                   r \in {sh.sp, "a03"}}
+           : sh \in {x \in Rng(s.shards) : x.status = SCompleted /\ HasOrder(s, x.order) /\ x.id % 2 = s.h % 2}}
+
 Events(s) ==
     CASE Family = "did"    -> DidEvents(s)
       [] Family = "super"  -> SuperEvents(s)
       [] Family = "reward" -> RewardEvents(s)
       [] Family = "auth"   -> AuthEvents(s)
       [] Family = "gen" -> GStoreNew(s) \cup GStoreUpd(s) \cup GCompletes(s) \cup GCancels(s) \cup GSigned(s)
-                           \cup Migrates(s) \cup Claims(s) \cup GBlocks(s)
+                           \cup Migrates(s) \cup Claims(s) \cup GBlocks(s) \cup GenDid(s) \cup GenStaking(s) \cup GenFaults(s)
       [] Family = "pay" -> StoreNew(s) \cup StoreUpd(s) \cup Completes(s) \cup Cancels(s) \cup Terminates(s) \cup Renews(s)
                            \cup Migrates(s) \cup Claims(s) \cup BlocksEv(s)
       [] OTHER -> BlocksEv(s)
